@@ -88,7 +88,7 @@ CLAIMED["C01"] = (
     "each get_* reader returns its field, and a lemma shows the fields are disjoint so readers invert create_flags; update_ivt writes exactly "
     "the four words (total length, flags, CRC/cert offset — 0 for plain images —, load address) and frames every other byte; clean_ivt zeroes "
     "exactly those words; Mbi_ExportMixinAppTrustZoneCertBlock.disassemble_image restores the application bytes before the certificate offset. "
-    "Whole-image export/parse per composition is a bounded check over the key-less compositions of the live database (known finding C01-KF1).",
+    "Whole-image export/parse per composition is a bounded check over the key-less compositions of the live database (known finding C01-KF1). Added: certificate-block-v1 signed images (RSA-2048 repository test keys, with and without relocation table) are decoded by hand in a bounded sweep - IVT total length / certificate offset words against independently computed positions, relocation entries, independent RSA signature verification.",
     "Trusted: A-enc, A-smt, A-struct. Not under contract: the other export mixins' collect_data/disassemble_image, relocation tables (design-time "
     "finding #16, not checked here), TrustZone/key-store contents, certificate blocks (C03), config/CLI front ends.",
     "DESIGN.md 7 C01")
@@ -107,7 +107,7 @@ CLAIMED["C03"] = (
     "slots in key order, missing slots zero, SHA-256 of the table) for 1..4 keys and RKHTv21.rkth (single hash, or hash of the concatenation) "
     "are discharged. Since each path's result is proved equal to a spec term that mentions only the ordered key numbers, independence from the "
     "signer and agreement between these paths follow. Certificate blocks, PFR ROTKH, DAT RoT meta, AHAB/HAB SRK tables are not under contract "
-    "here (bounded / other properties); key parsing from PEM/DER/certificates is external (A-pki; bounded agreement check).",
+    "here (bounded / other properties); key parsing from PEM/DER/certificates is external (A-pki; bounded agreement check). Added: RootKeyRecord.parse (cert block v2.1) - root public key behind the table, one hash per root key, table entries in order, a single P-256 / P-384 root key hashed with SHA-256 / SHA-384 - for 1..4 keys and both curves.",
     "Trusted: hashes as uninterpreted functions, A-pki (cryptography's key parsing), A-enc, A-smt, A-struct.",
     "DESIGN.md 7 C03")
 CLAIMED["C10"] = (
@@ -115,17 +115,17 @@ CLAIMED["C10"] = (
     "MbootSerialProtocol.read — against a ghost device whose device-to-host stream is universally quantified (any bytes, any length, so every "
     "corrupted byte, truncation or missing response is inside the quantifier) — returns a payload only for a frame of the declared length whose "
     "CRC matches, for DATA and CMD frames alike, raises only the documented exceptions otherwise, and always acknowledges the frame. "
-    "USB-HID framing, McuBoot operations (data phases, status mirroring), SDP/SDPS and 'within bounded time' are NOT decided here.",
+    "USB-HID framing, McuBoot operations (data phases, status mirroring), SDP/SDPS and 'within bounded time' are NOT decided here. Added: McuBoot.read_memory (USB-HID chunked path for packet sizes 32/56/1016 and the single-command path, any address, lengths 0..64 KiB, loop by inductive invariant): success status implies exactly the requested device bytes, whatever is returned is a prefix of the device bytes - against an ASSUMED device model (ghost memory; _process_cmd / _read_data behave as the reference bootloader).",
     "Trusted: CRC as an uninterpreted function (C09), assumed contracts for the wall-clock wait loop and for response decoding, frame layout "
     "verified for payload lengths 0/1/4/32 and assumed for the others at call sites, A-enc, A-smt, A-struct. Known design-time findings #28/#29 "
-    "(partial data with SUCCESS status; struct.error from response constructors) are not covered by a check.",
+    "(partial data with SUCCESS status; struct.error from response constructors) are not covered by a check. Assumed contracts (device model): McuBoot._process_cmd, McuBoot._read_data - a data phase that ends with SUCCESS but delivered fewer bytes than announced is outside this model (not decided).",
     "DESIGN.md 7 C10")
 CLAIMED["C13"] = (
     "Deductively: the OTFAD counter nonce KeyBlob._get_ctr_nonce = CTR_W0 || CTR_W1 || (W0 xor W1) || 0^4 (address word left to the counter), and "
     "the BEE protected window BeeProtectRegionBlock.update = [lowest FAC start, highest FAC end) for 0..3 regions in any order, plus "
     "is_inside_region. The statement's main clause (the hardware decrypts what SPSDK encrypts, locality, key-blob unwrap) is only a bounded "
     "check here: per-16-byte-block hardware models for OTFAD and BEE over seeded blobs / regions / bases (known finding C13-KF1 for bases that "
-    "are not 1 KiB aligned). IEE is not covered.",
+    "are not 1 KiB aligned). IEE is not covered. Added: IeeKeyBlob.encrypt_image_ctr - every 16 bytes are AES-CTR'ed with the counter of their own absolute address (nonce word + address>>4 with 32-bit wrap, never carrying into the nonce), for 1..3 blocks, 128/256-bit keys, all keys/nonces/addresses; AES_CTR carries the counter-mode definition law (multi-block = per-block with the 128-bit counter advanced).",
     "Trusted: AES as external (A-crypto-fun); encrypt_image loops (OTFAD/IEE/BEE), key-blob export/unwrap and KEK scrambling are NOT under contract; A-enc, A-smt.",
     "DESIGN.md 7 C13")
 CLAIMED["C15"] = (
@@ -133,7 +133,7 @@ CLAIMED["C15"] = (
     "it is proved for all contents that the message handed to the signer is exactly credential || LE32(beacon) || [device UUID taken from the "
     "challenge, ECC versions] || challenge vector, and that the exported response is credential || LE32(beacon) || [device UUID] || signature over "
     "that message — so a response is bound to the credential, beacon, device UUID and challenge (injectivity: all parts have fixed or "
-    "credential-determined lengths). 'Never verifies against another challenge' then rests on the signature scheme (not claimed).",
+    "credential-determined lengths). 'Never verifies against another challenge' then rests on the signature scheme (not claimed). Added: RotMetaRSA.export / calculate_hash - the RoT table is four 32-byte slots in key order with missing slots zero and its hash is the image tool's RKTH, for 1..4 keys.",
     "Trusted: the signature provider as an uninterpreted function (A-crypto-fun / A-crypto-sec not claimed), A-enc, A-smt, A-struct. The debug "
     "credential classes (export/parse/_get_data_to_sign, RoT meta; RoT hash equality with C03), challenge parsing, EdgeLock-enclave v2 responses "
     "and the YAML front end are NOT under contract.",
@@ -144,7 +144,7 @@ CLAIMED["C14"] = (
     "three-segment layouts with every static/floating pattern after a static first segment, all offsets, lengths and alignments (1/4/1024) "
     "symbolic; the data obligations the theorem assumes (first segment static, static offsets strictly increasing, positive alignments) are "
     "checked exhaustively over every (family, memory type) of the live database. Export/parse of the merged image, gap filling, init_offset "
-    "selection and content-search parsing are NOT decided here (C16 gives the composition theorem they rest on).",
+    "selection and content-search parsing are NOT decided here (C16 gives the composition theorem they rest on). Added (bounded): every fixed-size segment class of every layout comes back whole from parse_binary (random payloads; FCB classes with a tagged payload).",
     "Trusted: A-enc, A-smt; segments are abstract (offset rule, alignment, length). Layouts longer than three segments follow the same recursion "
     "(not instantiated).",
     "DESIGN.md 7 C14")
@@ -154,7 +154,7 @@ CLAIMED["C06"] = (
     "Verifier.add_record_bit_range records ERROR exactly when the value is missing or outside [0, 2^bits) — with C20's truthful check_range this "
     "is what makes 'a valid image is never reported as erroneous' hold for the SW/fuse version records (repaired defect). Container, image-array, "
     "signature-block and SRK layouts, hashing, signing, offsets and disjointness are NOT under contract: bounded build/parse/verify of the "
-    "repository's example configurations only.",
+    "repository's example configurations only. Added: ImageArrayEntry.get_hash_from_flags returns the algorithm the entry declares for every computable hash tag (SHA-256/384/512, SM3) of container versions 1 and 2, and create_flags packs type / core / hash / encrypted / boot flags into their fields.",
     "Trusted: A-enc, A-smt. Everything outside the two units above is unverified here; 'corruption is reported' rests on the primitives (not claimed).",
     "DESIGN.md 7 C06")
 CLAIMED["C12"] = (
